@@ -189,6 +189,15 @@ def main() -> int:
             extra = [x for x in dv if x not in db] or [x for x in db if x not in dv]
             comp_keys = {"/components/schemas/" + k for k in bases[bi][1]["components"]["schemas"]}
             reproc = any(x[1].startswith("\nUnable to process schema ") and (x[1].strip()[len("Unable to process schema "):].rstrip(":") not in comp_keys or "Attempted to generate duplicate models with name" in (x[2] or "")) for x in extra)
+            if not reproc and k0 in ("wrap_ref", "unwrap_ref", "nullable_ref_member"):
+                # the same re-processing surfacing through a nested union of the copied model ("Invalid property in union <inline nullable object>"): the diagnostic names a
+                # component that the side with more diagnostics refers to through a single-element wrapper
+                import json as _json
+                more = _json.dumps(j.get("doc") if len(dv) > len(db) else bases[bi][1])
+                for x in extra:
+                    nm_ = x[1].strip()[len("Unable to process schema "):].rstrip(":")
+                    if x[1].startswith("\nUnable to process schema ") and nm_ in comp_keys and (x[2] or "").startswith("Invalid property in union") and ('[{"$ref": "#' + nm_ + '"}]') in more:
+                        reproc = True
             # one mechanism whatever rewrite put the single-reference wrapper there (wrap / unwrap / nullable allOf[ref] <-> oneOf[null, ref])
             vd.violation("single_ref_wrapper:diagnostics_differ:model_copy_reprocessed" if reproc else f"{k0}:diagnostics_differ", f"{bases[bi][0]}: {len(db)} vs {len(dv)} diagnostics: {extra[:1] or [x for x in db if x not in dv][:1]}", w)
             continue  # tree differences of this pair are consequences of the differing diagnostics
